@@ -73,7 +73,15 @@ fn drive<R, I: Iterator<Item = Result<R, lightmotif_io::error::Error>>>(mut it: 
                 }
                 break;
             }
-            Some(Err(_)) => break,
+            Some(Err(_)) => {
+                // a caller that logs the error and asks again: every request returns, whatever it returns
+                for _ in 0..3 {
+                    if it.next().is_none() {
+                        break;
+                    }
+                }
+                break;
+            }
             Some(Ok(_)) => {}
         }
     }
